@@ -59,11 +59,23 @@ def file_pool(rng):
     pool['d-empty.mos.xml'] = ''
     pool['e-directory.mos.xml'] = '<dir>'
     pool['f-missing.mos.xml'] = None
+    # structural neighbours of the documents above (gens.mutate_doc): what detect / inspect print for them
+    base = [(k_, v) for k_, v in pool.items() if isinstance(v, str) and v.startswith('<mos')]
+    for j in range(40):
+        k_, v = rng.choice(base)
+        pool['m%02d-%s' % (j, k_[3:])] = gens.mutate_doc(rng, v, None, n=rng.randrange(1, 4))
     return pool
 
 
 def model_detect(inspect, names, pool, at='@'):
-    toks = ['cli', '1' if inspect else '0', str(len(names))]
+    docs_ = []
+    for n in names:
+        try:
+            if pool[n] not in (None, '<dir>'):
+                docs_.append(impl.parse_doc(pool[n]))
+        except Exception:
+            pass
+    toks = ['cli', engine.oracle_prefix(docs_), '1' if inspect else '0', str(len(names))]
     for n in names:
         c = pool[n]
         toks.append(X.s_tok(at + n))
